@@ -82,6 +82,7 @@ KINDS = {
         'another stored key is exported as metadata)',
     54: 'GetAllClientMetadata does not return exactly the metadata of every client under its own chain name',
     55: 'GetAllPacketCommitmentsByPath(src, dst) does not return exactly the commitments written for that source and destination',
+    57: 'a packet-relayer entry written by SetPacketRelayer is not read back by GetPacketRelayer under the triple it was written for',
     56: 'bsc DeleteAllSigner leaves a written recent-signer entry behind (or fails): the key is not read back as the height it was written for',
 }
 
@@ -219,11 +220,12 @@ def case_term(r):
             coq_list([cb(hx(k)) for k in (c.get('raw') or [])]))
             for c in (sp.get('clients') or [])])
         spec = ('{| is_clients := %s; is_commit := %s; is_acks := %s; is_receipts := %s; is_nextseq := %s; is_relayers := %s; '
-                'is_bypath := %s |}' % (
+                'is_bypath := %s; is_prelayers := %s |}' % (
             cls, coq_list([triple(t) for t in (sp.get('commitments') or [])]), coq_list([triple(t) for t in (sp.get('acks') or [])]),
             coq_list([triple(t) for t in (sp.get('receipts') or [])]), coq_list([triple(t) for t in (sp.get('nextseq') or [])]),
             coq_list([cb(hx(a)) for a in (sp.get('relayers') or [])]),
-            coq_list(['(%s, %s)' % (cb(hx(p[0])), cb(hx(p[1]))) for p in (sp.get('by_path') or [])])))
+            coq_list(['(%s, %s)' % (cb(hx(p[0])), cb(hx(p[1]))) for p in (sp.get('by_path') or [])]),
+            coq_list([triple(t) for t in (sp.get('prelayers') or [])])))
         per = coq_list(['{| co_keys := %s; co_ptime := %s; co_tm_asc := %s; co_evm_asc := %s; co_eth_asc := %s; co_signers := %s; '
                         'co_written := %s; co_exp_tm := %s; co_exp_bsc := %s; co_exp_eth := %s; co_signers_left := %s |}' % (
             coq_list([cb(hx(x)) for x in (p.get('store_keys') or [])]), cl_entries(p.get('ptime')), cl_items(p.get('tm_asc'), height),
@@ -236,13 +238,15 @@ def case_term(r):
         allmeta = '(%s, %s)' % (nat(am.get('class', 0)), coq_list(
             ['(%s, %s)' % (cb(hx(m['name'])), entries(m.get('keys'), m.get('vals'))) for m in (am.get('items') or [])]))
         obs = ('{| io_base := %s; io_keys := %s; io_cons := %s; io_clients := %s; io_per := %s; io_commit := %s; io_acks := %s; '
-               'io_receipts := %s; io_nextseq := %s; io_relayers := (%s, %s); io_allmeta := %s; io_bypath := %s |}' % (
+               'io_receipts := %s; io_nextseq := %s; io_relayers := (%s, %s); io_allmeta := %s; io_bypath := %s; io_prelayers := %s |}' % (
                    coq_list([cb(hx(x)) for x in (ob.get('base_keys') or [])]), coq_list([cb(hx(x)) for x in (ob.get('store_keys') or [])]),
                    cl_items(ob.get('cons'), lambda x: '(%s, %s)' % (cb(hx(x[0])), height(x[1:]))),
                    cl_items(ob.get('clients'), lambda x: cb(hx(x))), per,
                    cl_items(ob.get('commitments'), triple), cl_items(ob.get('acks'), triple), cl_items(ob.get('receipts'), triple),
                    cl_items(ob.get('nextseq'), triple), nat(rel.get('class', 0)), nat(rel.get('n', 0)), allmeta,
-                   coq_list([cl_items(x, triple) for x in (ob.get('by_path') or [])])))
+                   coq_list([cl_items(x, triple) for x in (ob.get('by_path') or [])]),
+                   '(%s, %s)' % (nat((ob.get('prelayers') or {}).get('class', 0)),
+                                 coq_list([cb(hx(v)) for v in ((ob.get('prelayers') or {}).get('vals') or [])]))))
         return '(CIter %s %s)' % (spec, obs)
     if k == 'contract':
         if ob.get('class') != 0:
@@ -382,7 +386,7 @@ def shrink(workdir, case, kind):
                 attempt(cand)
     elif k == 'iter':
         sp = best['spec']
-        for fam in ('commitments', 'acks', 'receipts', 'nextseq', 'relayers', 'by_path'):
+        for fam in ('commitments', 'acks', 'receipts', 'nextseq', 'relayers', 'by_path', 'prelayers'):
             if sp.get(fam):
                 cand = json.loads(json.dumps(best))
                 cand['spec'][fam] = []
@@ -524,7 +528,12 @@ def coverage(run, results, mm, ff):
             dist['iter_heights_written'] += len(hs)
             dist['iter_heights_with_0x2f_byte'] += sum(
                 1 for h in hs if b'\x2f' in int(h[0]).to_bytes(8, 'big') + int(h[1]).to_bytes(8, 'big'))
-            dist['iter_packet_keys_written'] += sum(len(sp.get(f) or []) for f in ('commitments', 'acks', 'receipts', 'nextseq'))
+            dist['iter_packet_keys_written'] += sum(len(sp.get(f) or []) for f in ('commitments', 'acks', 'receipts', 'nextseq', 'prelayers'))
+            dist['iter_packet_sequences_ge_2^63'] += sum(1 for f in ('commitments', 'acks', 'receipts', 'prelayers') for t in (sp.get(f) or []) if int(t[2]) >= 2 ** 63)
+            for f in ('commitments', 'acks', 'receipts', 'nextseq'):
+                cl = (ob.get(f) or {}).get('class', 0)
+                if cl:
+                    dist['iter_%s_class_%d' % (f, cl)] += 1
             for c in sp.get('clients') or []:
                 dist['iter_client_' + c['type']] += 1
                 dist['iter_raw_metadata_keys'] += len(c.get('raw') or [])
@@ -611,15 +620,57 @@ def report_case_failures(run, results, ff, mm):
                           name='replay_corr_c%d.json' % c, no_input=True)
 
 
+SNAP = os.path.join(vlib.ROOT, 'tools', 'py', 'props', 'c19_snapshot')
+GEN_OF = {'keys': 'KeysGen.v', 'keysiter': 'KeysIterGen.v', 'abischema': 'AbiSchemaGen.v'}
+
+
+def refresh_snapshot():
+    """after a clean pass on the unchanged /repo: keep a copy of the regenerated terms of this property (rewritten only on
+    change).  It is used by fallback_build() only."""
+    os.makedirs(SNAP, exist_ok=True)
+    for f in GEN_OF.values():
+        src = os.path.join(vlib.THEORIES, 'Gen', f)
+        dst = os.path.join(SNAP, f)
+        if os.path.exists(src):
+            new = open(src).read()
+            if not os.path.exists(dst) or open(dst).read() != new:
+                open(dst, 'w').write(new)
+
+
+def fallback_build(log):
+    """A translator refused the tree under test (a construct outside its subset): the tie is broken and the run will end with
+    a VIOLATION in any case.  To still SEARCH for a concrete failing input, the terms of the last clean regeneration
+    (c19_snapshot/) are installed for the translators that failed and the evaluation library is built without re-running the
+    translators; the real code of the tree under test is then run against them as usual."""
+    import re
+    failed = re.findall(r'\[translator (\w+) failed\]', log or '')
+    for t in failed:
+        f = GEN_OF.get(t)
+        if f and os.path.exists(os.path.join(SNAP, f)):
+            os.makedirs(os.path.join(vlib.THEORIES, 'Gen'), exist_ok=True)
+            open(os.path.join(vlib.THEORIES, 'Gen', f), 'w').write(open(os.path.join(SNAP, f)).read())
+    with vlib.Lock('coq'):
+        vlib.sh([os.path.join(vlib.ROOT, 'tools', 'gen_coqproject.sh')], cwd=vlib.ROOT)
+        if not os.path.exists(os.path.join(vlib.COQ, 'Makefile')):
+            vlib.sh('coq_makefile -f _CoqProject -o Makefile', cwd=vlib.COQ)
+        rc, out = vlib.sh('make -k -j16 theories/Model/EncodingCheck.vo', cwd=vlib.COQ, timeout=3000)
+    return rc == 0, failed, out
+
+
 def check(run):
     pr = run.proof_stage(extra_modules=['theories/Props/C19State.v'])
     if not run.quick():
         run.coqchk_stage()
+    translator_failed = None
     if 'translator failed' in (pr.get('build_log') or '') or 'translator' in (pr.get('build_log') or '')[:200]:
-        run.violation(dict(kind='translator-failed', log=pr['build_log'][-3000:],
-                           explanation='a key builder / ABI schema of /repo is outside the subset the translator understands: '
-                                       'the tie between the Go source and the Coq terms is broken'), no_input=True)
-        return run.finish()
+        translator_failed = dict(kind='translator-failed', log=pr['build_log'][-3000:],
+                                 explanation='a key builder / iterator / ABI schema of /repo is outside the subset the translator understands: '
+                                             'the tie between the Go source and the Coq terms is broken')
+        okfb, failed, fblog = fallback_build(pr['build_log'])
+        run.coverage['translator_failed'] = failed
+        if not okfb:
+            run.violation(translator_failed, no_input=True)
+            return run.finish()
     ok, out, degraded = build_harness()
     if not ok:
         run.violation(dict(kind='harness-build-failed', log=out[-3000:],
@@ -659,6 +710,14 @@ def check(run):
                         'Solidity abi.encode of the packet contract produces the canonical head/tail layout (= go-ethereum Pack); '
                         'only the Go side is executed here']
 
+    if translator_failed:
+        # search mode: only a failure of the property itself on the implementation's observations is a concrete input
+        report_case_failures(run, results, ff, [])
+        if not run.violations:
+            translator_failed['model_mismatches_against_last_good_terms'] = [
+                dict(case=dict(kind=results[c]['kind'], spec=results[c]['spec']), code=k, what=KINDS.get(k)) for c, k in mm[:3]]
+            run.violation(translator_failed, no_input=True)
+        return run.finish()
     report_case_failures(run, results, ff, mm)
 
     # broken obligations on the regenerated terms: search for a concrete failing input on the real code
@@ -679,6 +738,8 @@ def check(run):
                                   name='replay_key_%d.json' % i)
     if not run.violations and not run.proof_ok():
         run.proof_violation()
+    if not run.violations and os.path.realpath(vlib.REPO) == '/repo' and not os.environ.get('VERIF_ALT_ROOT'):
+        refresh_snapshot()
     return run.finish()
 
 
@@ -691,6 +752,8 @@ def replay(path):
         print('cannot replay: harness does not build: %s' % out[-500:])
         return 2
     ok, blog = vlib.coq_build(['theories/Model/EncodingCheck.vo'])
+    if not ok and 'translator' in (blog or ''):
+        fallback_build(blog)
     if 'cases' in rp:  # key collision pair
         rs = run_specs(work, rp['cases'], 'replay')
         outs = [r['obs'].get('out') for r in rs or []]
